@@ -237,3 +237,12 @@ Print Assumptions C09_f32_values_are_f64_values.
 Theorem C09_demotion_not_exact : ~ (forall x, fin_fmt (53, -1074, 1023) x -> fin_fmt (24, -149, 127) x).
 Proof. exact demotion_not_exact. Qed.
 Print Assumptions C09_demotion_not_exact.
+
+(* ---------------------------------------------------------------- (V) constants are materialised in double, not widened *)
+Theorem C09_no_widened_single_const_sound : forall m, no_widened_single_const m = true ->
+  (forall g n i, In g (om_graphs m) -> In n (og_nodes g) -> is_cast_to_double n = true -> In i (on_ins n) ->
+     str_mem i (single_const_names g) = false) /\
+  (forall f n i, In f (om_functions m) -> In n (of_nodes f) -> is_cast_to_double n = true -> In i (on_ins n) ->
+     str_mem i (single_const_outs (of_nodes f)) = false).
+Proof. exact no_widened_single_const_sound. Qed.
+Print Assumptions C09_no_widened_single_const_sound.
